@@ -207,6 +207,18 @@ def poly_program(rng):
         if rng.random() < 0.5:
             calls = calls[2:4] + calls[0:2] + calls[4:]
         L += calls
+    if rng.random() < 0.5:
+        # a helper whose only fractional call sits inside str(); a recursive helper whose branch-local is read after the recursive
+        # call; a loop-local that starts whole and is widened in the same body; a choice whose (never taken) first arm is a truth value
+        L += ["def dbl(v):", "    return v * 2", "", "def walk(n):", "    if n > 0:", "        d = n * 2", "        r = walk(n - 1)", "        mon.write(d)", "    return n", ""]
+        extra = [["lab = str(dbl(fv))", "mon.write(lab)", "lab2 = str(dbl(iw))", "mon.write(lab2)"], ["qw = walk(3)", "mon.write(qw)"],
+                 ["for kl in range(3):", "    lvl = kl", "    lvl = lvl + 0.5", "    mon.write(lvl)"],
+                 ["wl = 2", "while wl > 0:", "    wl -= 1", "    acc2 = wl", "    acc2 += 0.25", "    mon.write(acc2)"],
+                 ["tv = (iv > 100) if iv > 1000 else 7", "mon.write(tv)", "tw = 7 if iv < 1000 else (iv > 100)", "mon.write(tw)"],
+                 ["bsum = (iv > 0) + (iw > 0)", "mon.write(bsum)", "bdiff = (iv > 0) - (iw < 0) + (iv > -1)", "mon.write(bdiff)"]]
+        rng.shuffle(extra)
+        for e in extra[: rng.randint(2, 6)]:
+            L += e
     k = 0
     for name, params, body, kinds in chosen:
         pools = {"num": ["iv", "fv", "iw", "fw2", "3"], "int": ["iw", "2", "3"], "any": ["iv", "fv", "sv"]}
